@@ -64,7 +64,9 @@ def all_configs():
 
 def fault_points(cfg):
     """every injection point that this configuration can reach"""
-    npipes = 1 + sum(1 for s in STREAMS if cfg[s] == "pipe")
+    invalid = cfg["stdin"] == "merge" or (cfg["stdout"] == "merge" and cfg["stderr"] == "merge")
+    # (an invalid combination is refused right after the launch-status pipe: no stream pipe is ever made)
+    npipes = 1 + (0 if invalid else sum(1 for s in STREAMS if cfg[s] == "pipe"))
     pts = [("pipe", k, EMFILE, False) for k in range(1, npipes + 1)]
     pts += [("fcntl", k, EBADF, False) for k in range(1, 2 * (npipes + 1) + 1)]
     pts += [("fork", 1, EAGAIN, False)]
